@@ -125,6 +125,36 @@ theorem row_size_tie (r : Row) (x : XRow) (h : r.checksum.length = 16)
 /-- `DEFAULT_CHUNK_SIZE` -/
 theorem default_chunk_size_tie : Builder.init.chunkSize = BlteSrc.default_chunk_size := by decide
 
+/-- `MIN_CHUNK_SIZE` / `MAX_CHUNK_SIZE` -/
+theorem chunk_size_limits_tie :
+    minChunkSize = BlteSrc.min_chunk_size ∧ maxChunkSize = BlteSrc.max_chunk_size := by decide
+
+/-- `with_chunk_size` succeeds exactly on `(MIN_CHUNK_SIZE..=MAX_CHUNK_SIZE).contains(&size)`. -/
+theorem with_chunk_size_tie (cd : Codec) (b : Builder) (n : Nat) :
+    (∃ b', step cd b (.withChunkSizeChecked n) = .ok b') ↔
+      BlteSrc.min_chunk_size ≤ n ∧ n ≤ BlteSrc.max_chunk_size := by
+  rw [← chunk_size_limits_tie.1, ← chunk_size_limits_tie.2]
+  simp only [step]
+  constructor
+  · rintro ⟨b', h⟩
+    split at h
+    · cases h
+    · omega
+  · intro h
+    have : ¬ (n < minChunkSize ∨ maxChunkSize < n) := by omega
+    exact ⟨{ b with chunkSize := n }, by simp only [this, if_false]⟩
+
+/-- the two constants bound the content of a chunk in the builder and are used nowhere else under
+blte/: no reader derives a limit on table entries from them (a stored chunk is up to 17 bytes
+longer than its content, more when the content does not compress:
+`Props.C01.full_chunk_table_entry_exceeds_max`). -/
+theorem chunk_size_limit_builder_only_tie : BlteSrc.chunk_size_limit_used_outside_builder = [] := by
+  decide
+
+/-- the bytes an encrypted chunk carries in front of its ciphertext. -/
+theorem enc_header_len_tie :
+    encHeaderLen = 1 + BlteSrc.enc_key_name_size + 1 + BlteSrc.enc_iv_size + 1 := by decide
+
 /-- the length floor of `decrypt_chunk_with_keys`. -/
 theorem enc_floor_tie (cd : Codec) (keys : Nat → Option Bytes) (data : Bytes) (idx : Nat)
     (h : data.length < BlteSrc.enc_floor) : decryptChunk cd keys data idx = .error .compression := by
